@@ -1,9 +1,156 @@
+/-
+BDS 1,0 reader: panic-freedom (C01), serialisation (C07), ranges (C08) — for every reader state.
+The first section holds the small list/JSON lemmas shared by the proofs of the seven registers
+BDS 1,0 / 1,7 / 1,8 / 1,9 / 2,0 / 2,1 / 3,0 (namespace `CommbA`, imported by the other six files).
+-/
 import Rs1090.Proofs.Decode.Wp
+import Rs1090.Proofs.Decode.Ser
 import Rs1090.Model.Decode.Bds10
-namespace Rs1090.Model.Bds10
+
+namespace Rs1090.Model.CommbA
 open Rs1090 Rs1090.Model
 
-/-- STUB proof for the STUB reader (replaced together with the model) -/
-theorem read_noPanic : NoPanic read := by unfold read; exact noPanic_fail _
+/-- an explicit field list serialises well: distinct visible keys, well-formed values.
+    Both side conditions are closed terms up to leaf values, so `rfl` proves them. -/
+theorem serGood_ok (fs : Fields)
+    (h1 : decide (keyIds fs.toObj).Nodup = true) (h2 : Json.wfObj fs.toObj = true) :
+    SerGood [] (.ok fs) :=
+  ⟨fs, rfl, of_decide_eq_true h1, fun _ _ => List.not_mem_nil, h2⟩
+
+/-- `#[serde(tag = "bds", rename = "NN")]` struct: the tag entry is the first field -/
+theorem serGood_tagged (tag name : Key) (fs : Fields)
+    (h1 : decide (keyIds (Fields.toObj (fld tag (.lit name) :: fs))).Nodup = true)
+    (h2 : Json.wfObj (Fields.toObj (fld tag (.lit name) :: fs)) = true) :
+    SerGood [] (tagged tag name (.ok fs)) :=
+  serGood_ok (fld tag (.lit name) :: fs) h1 h2
+
+theorem rangeGood_ok (fs : Fields) (h : Json.inRangeObj fs.toObj = true) : RangeGood (.ok fs) := by
+  intro fs' h'
+  cases h'
+  exact h
+
+theorem rangeGood_tagged (tag name : Key) (fs : Fields)
+    (h : Json.inRangeObj (Fields.toObj (fld tag (.lit name) :: fs)) = true) :
+    RangeGood (tagged tag name (.ok fs)) :=
+  rangeGood_ok (fld tag (.lit name) :: fs) h
+
+/-! ### visible entries of a field list -/
+
+theorem toObj_cons_none (k : Key) (r : Fields) : Fields.toObj ((k, none) :: r) = Fields.toObj r := by
+  simp [Fields.toObj]
+
+theorem toObj_cons_some (k : Key) (j : Json) (r : Fields) :
+    Fields.toObj ((k, some j) :: r) = (k, j) :: Fields.toObj r := by
+  simp [Fields.toObj]
+
+theorem toObj_append (a b : Fields) : Fields.toObj (a ++ b) = Fields.toObj a ++ Fields.toObj b := by
+  simp [Fields.toObj]
+
+/-- skipping fields (`skip_serializing_if`) leaves a sub-list of the declared keys -/
+theorem keyIds_toObj_sublist (fs : Fields) :
+    (keyIds (Fields.toObj fs)).Sublist (fs.map (·.1.id)) := by
+  induction fs with
+  | nil => simp [Fields.toObj, keyIds]
+  | cons f r ih =>
+    rcases f with ⟨k, v⟩
+    cases v with
+    | none => rw [toObj_cons_none]; exact List.Sublist.cons _ ih
+    | some j => rw [toObj_cons_some]; exact List.Sublist.cons_cons _ ih
+
+theorem nodup_toObj (fs : Fields) (h : (fs.map (·.1.id)).Nodup) : (keyIds (Fields.toObj fs)).Nodup :=
+  List.Nodup.sublist (keyIds_toObj_sublist fs) h
+
+theorem mem_toObj {fs : Fields} {kv : Key × Json} (h : kv ∈ Fields.toObj fs) :
+    (kv.1, some kv.2) ∈ fs := by
+  induction fs with
+  | nil => simp [Fields.toObj] at h
+  | cons f r ih =>
+    rcases f with ⟨k, v⟩
+    cases v with
+    | none => rw [toObj_cons_none] at h; exact List.mem_cons_of_mem _ (ih h)
+    | some j =>
+      rw [toObj_cons_some] at h
+      rcases List.mem_cons.mp h with rfl | h
+      · exact List.mem_cons_self
+      · exact List.mem_cons_of_mem _ (ih h)
+
+theorem inRangeObj_of (kvs : List (Key × Json))
+    (h : ∀ kv ∈ kvs, specFor kv.1.id = none ∧ kv.2.inRange = true) : Json.inRangeObj kvs = true := by
+  induction kvs with
+  | nil => rfl
+  | cons kv r ih =>
+    rcases kv with ⟨k, v⟩
+    have hk := h (k, v) List.mem_cons_self
+    have hr := ih (fun x hx => h x (List.mem_cons_of_mem _ hx))
+    simp only [Json.inRangeObj, hk.1, hk.2, hr, Bool.and_self]
+
+/-- one entry whose key is in the C08 table -/
+theorem inRangeObj_cons_some (k : Key) (v : Json) (r : List (Key × Json)) (c : Constraint)
+    (h : specFor k.id = some c) : Json.inRangeObj ((k, v) :: r) = (c.holds v && Json.inRangeObj r) := by
+  simp only [Json.inRangeObj, h]
+
+/-- one entry whose key is not in the C08 table -/
+theorem inRangeObj_cons_none (k : Key) (v : Json) (r : List (Key × Json))
+    (h : specFor k.id = none) : Json.inRangeObj ((k, v) :: r) = (v.inRange && Json.inRangeObj r) := by
+  simp only [Json.inRangeObj, h]
+
+theorem inRangeObj_append (a b : List (Key × Json)) :
+    Json.inRangeObj (a ++ b) = (Json.inRangeObj a && Json.inRangeObj b) := by
+  induction a with
+  | nil => simp [Json.inRangeObj]
+  | cons kv r ih =>
+    rcases kv with ⟨k, v⟩
+    simp only [List.cons_append, Json.inRangeObj, ih, Bool.and_assoc]
+
+theorem wfObj_append (a b : List (Key × Json)) :
+    Json.wfObj (a ++ b) = (Json.wfObj a && Json.wfObj b) := by
+  induction a with
+  | nil => simp [Json.wfObj]
+  | cons kv r ih =>
+    rcases kv with ⟨k, v⟩
+    simp only [List.cons_append, Json.wfObj, ih, Bool.and_assoc]
+
+end Rs1090.Model.CommbA
+
+namespace Rs1090.Model.Bds10
+open Rs1090 Rs1090.Model Rs1090.Model.CommbA
+
+theorem failIfNot10_noPanic (v : Nat) : (failIfNot10 v).isPanic = false := by
+  unfold failIfNot10; split <;> rfl
+
+theorem failIfNot0_noPanic (v : Nat) : (failIfNot0 v).isPanic = false := by
+  unfold failIfNot0; split <;> rfl
+
+/-- C01: the BDS 1,0 reader never panics, whatever the payload bits -/
+theorem read_noPanic : NoPanic read := by
+  intro s
+  unfold NoPanicAt read
+  wp_run
+  apply wp_lift_of (failIfNot10_noPanic _); intro _ _
+  wp_run
+  apply wp_lift_of (failIfNot0_noPanic _); intro _ _
+  wp_run
+
+/-- C07: an accepted BDS 1,0 register serialises to an object with 14 distinct keys -/
+theorem read_serGood : ∀ s, wp read (fun r _ => SerGood [] r) s := by
+  intro s
+  unfold read
+  wp_run
+  apply wp_lift_of (failIfNot10_noPanic _); intro _ _
+  wp_run
+  apply wp_lift_of (failIfNot0_noPanic _); intro _ _
+  wp_run
+  exact serGood_tagged _ _ _ rfl rfl
+
+/-- C08: no BDS 1,0 field is a constrained physical quantity (flags, version number, DTE bits) -/
+theorem read_rangeGood : ∀ s, wp read (fun r _ => RangeGood r) s := by
+  intro s
+  unfold read
+  wp_run
+  apply wp_lift_of (failIfNot10_noPanic _); intro _ _
+  wp_run
+  apply wp_lift_of (failIfNot0_noPanic _); intro _ _
+  wp_run
+  exact rangeGood_tagged _ _ _ rfl
 
 end Rs1090.Model.Bds10
